@@ -93,6 +93,9 @@ impl WorldB {
             w[10] = 8;
             w[0] = 8;
         }
+        if adv >= 2 && self.cfg.get("expire") <= 5 && matches!(fam, "handshake" | "hostile") && rng.chance(1, 80) {
+            return Op::new(K_STALERESP, rng.below(8), 0, 0, 0);
+        }
         if adv >= 2 && in_flight > 0 && rng.chance(1, if adv >= 3 { 25 } else { 50 }) {
             return Op::new(K_REFRAME, slot as u64, dir as u64, rng.below(in_flight as u64), rng.below(8));
         }
